@@ -93,7 +93,7 @@ theorem wayV_eq_zero {accts : List Acct} {groups : List (Nat × List Acct)} {L :
   omega
 
 -- ------------------------------------------------------------------------------------------------ client step
-structure CStepOK (accts : List Acct) (groups : List (Nat × List Acct)) (L : List (Acct × Node)) (V : View) (x : Acct)
+structure CStepOKc (accts : List Acct) (groups : List (Nat × List Acct)) (L : List (Acct × Node)) (V : View) (x : Acct)
     (cons rest : List Stanza) (c' : Client) (out : List Stanza) (k : Nat) : Prop where
   hx : x ∈ accts
   hq : V.outb x = cons ++ rest
@@ -106,9 +106,6 @@ structure CStepOK (accts : List Acct) (groups : List (Nat × List Acct)) (L : Li
   cons_R : ∀ a n, (a, n) ∈ L → x ∈ intendedG groups a n →
     pendS n.id c'.pendingIn + sumMap (retryUpTok n.id) out + shownC c' n.id
       = sumMap (downTok n.id) cons + pendS n.id (V.cl x).pendingIn + shownC (V.cl x) n.id
-  rcons_S : ∀ n, (x, n) ∈ L → ∀ r, r ∈ intendedG groups x n →
-    rcptGot c' n.id r = rcptGot (V.cl x) n.id r + sumMap (rcptOut n.id r) cons
-  rcons_R : ∀ a n, (a, n) ∈ L → x ∈ intendedG groups a n → sumMap (rcptIn n.id) out + shownC (V.cl x) n.id = shownC c' n.id
   ans_iq : ∀ e ∈ c'.iqReg, (e ∈ (V.cl x).iqReg ∧ ∀ st ∈ cons, stanzaIq st ≠ some e.1) ∨ ∃ st ∈ out, stanzaIq st = some e.1
   ans_pend : ∀ e ∈ c'.pendingIn, ∃ k ∈ c'.iqReg, k.2 = Cont.keysForPending e.1.1 e.1.2
   kept_S : ∀ n, (x, n) ∈ L → ∀ r, r ∈ intendedG groups x n →
@@ -125,6 +122,13 @@ structure CStepOK (accts : List Acct) (groups : List (Nat × List Acct)) (L : Li
   unop_seen : ∀ n, (n ∈ c'.seen.map Prod.snd ∨ n ∈ c'.seenSK.map Prod.snd) →
     (n ∈ (V.cl x).seen.map Prod.snd ∨ n ∈ (V.cl x).seenSK.map Prod.snd) ∨
       pendN n c'.pendingIn + 1 ≤ sumMap (nOf n) cons + pendN n (V.cl x).pendingIn
+
+structure CStepOK (accts : List Acct) (groups : List (Nat × List Acct)) (L : List (Acct × Node)) (V : View) (x : Acct)
+    (cons rest : List Stanza) (c' : Client) (out : List Stanza) (k : Nat)
+    extends CStepOKc accts groups L V x cons rest c' out k : Prop where
+  rcons_S : ∀ n, (x, n) ∈ L → ∀ r, r ∈ intendedG groups x n →
+    rcptGot c' n.id r = rcptGot (V.cl x) n.id r + sumMap (rcptOut n.id r) cons
+  rcons_R : ∀ a n, (a, n) ∈ L → x ∈ intendedG groups a n → sumMap (rcptIn n.id) out + shownC (V.cl x) n.id = shownC c' n.id
 
 section Client
 variable {ex : Bool} {accts : List Acct} {groups : List (Nat × List Acct)} {L : List (Acct × Node)} {V : View} {x : Acct}
@@ -153,7 +157,9 @@ theorem wayV_popOuts (hq : V.outb x = cons ++ rest) (r : Acct) (n : Nat) :
   unfold wayV View.popOut
   by_cases hr : r = x <;> simp [hr, upd_apply, hq] <;> omega
 
-theorem TV.client_step (hn : accts.Nodup) (h : TV ex accts groups L V) (hs : CStepOK accts groups L V x cons rest c' out k) :
+theorem TV.client_step_core (hn : accts.Nodup) (h : TV ex accts groups L V) (hs : CStepOKc accts groups L V x cons rest c' out k)
+    (hrc : ∀ a n, (a, n) ∈ L → ∀ r, r ∈ intendedG groups a n →
+      rcRel ex (receiptTokensV ((V.popOut x rest).cstep x c' out k) a n.id r) (shownC (((V.popOut x rest).cstep x c' out k).cl r) n.id)) :
     TV ex accts groups L ((V.popOut x rest).cstep x c' out k) := by
   have hle : V.le ((V.popOut x rest).cstep x c' out k) := by
     refine ⟨hs.hk, ?_, fun p hp => hp⟩
@@ -215,29 +221,7 @@ theorem TV.client_step (hn : accts.Nodup) (h : TV ex accts groups L V) (hs : CSt
           omega
         · simp only [ha, hrx, if_false] at d1 d2
           omega
-    rcons := by
-      intro a n hn' r hr
-      have hne := h.neq a n hn' r hr
-      have d1 := receiptTokensV_cstep (V.popOut x rest) x c' out k a n.id r
-      have d2 := receiptTokensV_popOuts hs.hq a n.id r
-      have h0 := h.rcons a n hn' r hr
-      have hcx : (V.popOut x rest).cl x = V.cl x := rfl
-      rw [hcx] at d1
-      by_cases ha : a = x
-      · subst ha
-        have := hs.rcons_S n hn' r hr
-        rw [hcl r hne]
-        simp only [hne, if_false, if_true] at d1 d2
-        omega
-      · by_cases hrx : r = x
-        · subst hrx
-          have := hs.rcons_R a n hn' hr
-          rw [hclx]
-          simp only [ha, if_false, if_true] at d1 d2
-          omega
-        · rw [hcl r hrx]
-          simp only [ha, hrx, if_false] at d1 d2
-          omega
+    rcons := hrc
     ans := by
       intro r
       by_cases hr : r = x
@@ -361,6 +345,35 @@ theorem TV.client_step (hn : accts.Nodup) (h : TV ex accts groups L V) (hs : CSt
       · subst ha; rw [hclx] at he ⊢; exact hs.retq e he
       · rw [hcl a ha] at he ⊢; exact h.retq a e he }
 
+theorem TV.client_step (hn : accts.Nodup) (h : TV ex accts groups L V) (hs : CStepOK accts groups L V x cons rest c' out k) :
+    TV ex accts groups L ((V.popOut x rest).cstep x c' out k) := by
+  refine TV.client_step_core hn h hs.toCStepOKc ?_
+  have hclx : ((V.popOut x rest).cstep x c' out k).cl x = c' := by simp [View.cstep]
+  have hcl : ∀ r, r ≠ x → ((V.popOut x rest).cstep x c' out k).cl r = V.cl r := by
+    intro r hr; simp [View.cstep, View.popOut, upd_ne _ _ hr]
+  intro a n hn' r hr
+  have hne := h.neq a n hn' r hr
+  have d1 := receiptTokensV_cstep (V.popOut x rest) x c' out k a n.id r
+  have d2 := receiptTokensV_popOuts hs.hq a n.id r
+  have h0 := h.rcons a n hn' r hr
+  have hcx : (V.popOut x rest).cl x = V.cl x := rfl
+  rw [hcx] at d1
+  by_cases ha : a = x
+  · subst ha
+    have := hs.rcons_S n hn' r hr
+    rw [hcl r hne]
+    simp only [hne, if_false, if_true] at d1 d2
+    exact rcRel_shift h0 (by omega)
+  · by_cases hrx : r = x
+    · subst hrx
+      have := hs.rcons_R a n hn' hr
+      rw [hclx]
+      simp only [ha, if_false, if_true] at d1 d2
+      exact rcRel_shift h0 (by omega)
+    · rw [hcl r hrx]
+      simp only [ha, hrx, if_false] at d1 d2
+      exact rcRel_shift h0 (by omega)
+
 end Client
 
 -- ------------------------------------------------------------------------------------------------ server step
@@ -414,8 +427,8 @@ theorem TV.server_step {accts : List Acct} {groups : List (Nat × List Acct)} {L
       have d2 := receiptTokensV_popIn V x hs.hq a n.id r
       have := hs.rcons a n hn' r hr
       have h0 := h.rcons a n hn' r hr
-      show receiptTokensV ((V.popIn x rest).pushes add) a n.id r = shownC (V.cl r) n.id
-      omega
+      show rcRel ex (receiptTokensV ((V.popIn x rest).pushes add) a n.id r) (shownC (V.cl r) n.id)
+      exact rcRel_shift h0 (by omega)
     ans := by
       intro r
       refine ⟨?_, (h.ans r).2⟩
